@@ -75,8 +75,13 @@ def inputs_fn(with_T=True):
     return fn
 
 
+# options documented as 'optional, also attribute' in AurelCore
+ATTRIBUTE_OPTIONS = ('Lambda', 'vacuum', 'tetrad', 'lmax', 'center',
+                     'extract_radii', 'interp_method')
+
+
 def build_core(desc, seed, p, N, with_T=True, vacuum=False, extra_kw=None,
-               inputs_extra=None):
+               inputs_extra=None, lambda_attr=False):
     """Fresh FiniteDifference + AurelCore holding the exact inputs (frozen).
     Returns (rel, st, (X, Y, Z), inputs)."""
     from aurel.core import AurelCore
@@ -90,7 +95,15 @@ def build_core(desc, seed, p, N, with_T=True, vacuum=False, extra_kw=None,
     with quiet():
         fd = FiniteDifference(param, boundary=boundary, fd_order=p,
                               verbose=False)
-        rel = AurelCore(fd, **kw)
+        if lambda_attr:
+            # 'Lambda : float, optional, also attribute': set after
+            # construction instead of through the keyword
+            late = {k: kw.pop(k) for k in list(kw) if k in ATTRIBUTE_OPTIONS}
+            rel = AurelCore(fd, **kw)
+            for k, v in late.items():
+                setattr(rel, k, v)
+        else:
+            rel = AurelCore(fd, **kw)
     for k, v in inp.items():
         rel.data[k] = v
     for k, v in (inputs_extra or {}).items():
@@ -130,6 +143,25 @@ def converges(e_lo, e_hi, p, floor=1e-9, cap=None, slack=1.5):
 # caps: two decades above the largest legitimate relative error measured on
 # the unchanged tree at the finer resolution (N=32 periodic, one wavelength)
 CAPS = {2: 3e-1, 4: 3e-2, 6: 3e-3, 8: 1e-3}
+
+
+def lambda_attribute_dependence(desc, seed, p, N, keys, forward_values,
+                                **build_kw):
+    """Fresh instance with the cosmological constant (and every other
+    option documented as 'also attribute': vacuum, tetrad, ...) assigned to
+    the attribute after construction (same request order): every
+    value must equal the keyword-style one.  {key: relative difference}."""
+    rel, st, XYZ, inp = build_core(desc, seed, p, N, lambda_attr=True,
+                                   **build_kw)
+    out = {}
+    with quiet():
+        for k in keys:
+            v = np.asarray(rel[k])
+            f = np.asarray(forward_values[k])
+            sc = max(float(np.abs(f).max()), 1e-3)
+            out[k] = (float(np.abs(v - f).max()) / sc
+                      if v.shape == f.shape else float('inf'))
+    return out
 
 
 def order_dependence(desc, seed, p, N, keys, forward_values, **build_kw):
